@@ -46,6 +46,9 @@ THEOREMS = {
         "reach_eq",
         "bfsTree_dist_eq",
         "normalize_iso",
+        "normalize_nodes",
+        "normalize_preserves_dist",
+        "oracle_exact",
         "segment_roundtrip",
         "handle_noninterference",
         "handle_view_eq",
@@ -157,7 +160,7 @@ SPEC = {
     "theorems_by_module": THEOREMS,
     "gate_modules": ["Dawgs.Model.C14", "Dawgs.Spec.C14", "Dawgs.Proofs.C14", "Dawgs.Proofs.C14TS", "Dawgs.Proofs.C14Csr", "Dawgs.Proofs.C14Reach",
                      "Dawgs.Proofs.C14Bfs", "Dawgs.Proofs.C14Norm", "Dawgs.Proofs.C14Seg", "Dawgs.Proofs.C14Trav", "Dawgs.Proofs.C14TravInst", "Dawgs.Proofs.C14Edges", "Dawgs.Proofs.C14Dims",
-                     "Dawgs.Proofs.C14ToSeg", "Dawgs.Proofs.C14Glue", "Dawgs.Proofs.C14Heap", "Dawgs.Props.C14"],
+                     "Dawgs.Proofs.C14ToSeg", "Dawgs.Proofs.C14Glue", "Dawgs.Proofs.C14Heap", "Dawgs.Proofs.C14Oracle", "Dawgs.Props.C14"],
     "suites": [{"name": "c14", "model_suite": ("c14" + ("t" if TOMBSTONE_FIX else "") + ("s" if TOSEGMENT_FIX else "")) if MODEL_MODE == "fixed" else "c14old", "monitor_suite": "c14mon",
                 "keep_prefix": 2, "shrink_budget": 60, "thorough_seeds": 1}],
     "nontrivial": nontrivial,
@@ -183,6 +186,7 @@ SPEC = {
         "unexported container methods reached through interface assertions (Normalize, DeleteEdge, triplestore.AddNode) — no hook needed",
     ],
     "assumptions": [
+        "reachability / BFS distance / normalisation clauses are Lean theorems for ALL build histories (reach_eq, bfsTree_dist_eq, normalize_iso, normalize_nodes, normalize_preserves_dist); the naive oracle the monitor judges the real containers with is itself proved exact (oracle_exact); what remains search-only for these clauses is the transcription (tie) of the Go loops, incl. their unbounded `for queue.Len() > 0` vs the model's fuel (proved sufficient)",
         "projection handles: from the first `proj` of a case on, EVERY answer is followed by FNV-1a digests of the full canonical view (NumNodes, EachNode, NumEdges, EachEdge, per node x direction EachAdjacentNode set and EachAdjacentEdge ids) of every live handle and of the caller-owned bitmaps passed to Projection; impl, model (handles are immutable values) and spec monitor must agree on all of them; `snap H` gives the full text",
         "ids are < 2^64 (the Go code cannot represent others); the Lean theorems hold for all naturals",
         "EachAdjacentNode multiplicity is not part of the property: answers are compared as sets by the monitor and as exact callback sequences by the model tie",
